@@ -313,7 +313,7 @@ def _full_run(ch, window, scenario):
         rig.loop.timer_choices_enabled = True
         t_base = rig.loop.time()
         cmds = []
-        if scenario == "pump-on":
+        if scenario in ("pump-on", "lost-refresh", "lost-watercare"):
             cmds = [fac.pumps[0].async_set_mode(fac.pumps[0].modes[-1])]
         elif scenario == "pump-on-off":
             cmds = [fac.pumps[0].async_set_mode(fac.pumps[0].modes[-1]), fac.pumps[0].async_set_mode("OFF")]
@@ -334,6 +334,21 @@ def _full_run(ch, window, scenario):
                 rig.net.inject(rig.spa._transport, frame(SPA_ID, rig.man._client_id, content), SPA_ADDR)
 
         rig.loop.call_at(rig.loop.time() + 0.35, echo)
+        if scenario in ("lost-refresh", "lost-watercare"):
+            # one request of a background loop loses its reply: it holds the lock for a whole time-out while the (2 s) ping
+            # becomes due behind it - every ping is answered promptly once it is sent
+            verb = b"STATU" if scenario == "lost-refresh" else b"GETWC"
+            lost = []
+            t_arm = rig.loop.time()
+
+            def drop(data, src):
+                if verb in data and not lost and rig.loop.time() >= t_arm:
+                    lost.append(rig.loop.time())
+                    return True
+                return False
+
+            rig.peer.drop_request = drop
+            rig.loop.run_for(25.0)
         rig.loop.run_for(9.0)
         rig.loop.timer_choices_enabled = False
         for t in tasks:
@@ -348,7 +363,12 @@ def _full_run(ch, window, scenario):
                                   f"[{a[2]-t_base:.2f},{a[3]-t_base:.2f}] and {b[0]} ({b[1]}) from {b[2]-t_base:.2f}")
         # (with two deviations the accumulated wake-up jitter approaches a whole polling interval and the unhandled
         #  consumer may legitimately discard a reply before its waiter polls again - not judged then)
-        if why is None and sum(1 for k_, n_, c in ch.trace if k_ == "timer" and c) <= 1 and any(w[4] is False for w in hw):
+        if why is None and scenario in ("lost-refresh", "lost-watercare"):
+            bad = [w for w in hw if w[1] == "GeckoPingProtocolHandler" and w[4] is False]
+            if bad and sum(1 for k_, n_, c in ch.trace if k_ == "timer" and c) <= 1:
+                why = ("ping-timeout", f"a ping waited [{bad[0][2]-t_base:.2f},{bad[0][3]-t_base:.2f}] and was reported missed although the spa "
+                                       f"answers every ping at once (it had queued behind a request that lost its reply)")
+        elif why is None and sum(1 for k_, n_, c in ch.trace if k_ == "timer" and c) <= 1 and any(w[4] is False for w in hw):
             bad = [w for w in hw if w[4] is False][0]
             why = ("timeout", f"{bad[0]} ({bad[1]}) timed out on a fault-free link")
         if why is None and (lib.LOG.records or rig.loop.exceptions):
@@ -635,9 +655,11 @@ def run(ctx):
 
     # A4: the library's own callers on the whole stack around a mode switch, timer-order deviations
     fe = 0
-    for scenario in ("pump-on", "pump-on-off", "three-commands"):
-        st = explore.explore(ctx, _full_job, (0.049, scenario), bound=1 if ctx.quick else 2, label=f"full-stack {scenario}",
-                             max_execs=4000 if ctx.quick else 30000)
+    for scenario in ("pump-on", "pump-on-off", "three-commands", "lost-refresh", "lost-watercare"):
+        lost = scenario.startswith("lost")
+        bnd = (0 if lost else 1) if ctx.quick else (1 if lost else 2)
+        st = explore.explore(ctx, _full_job, (0.049, scenario), bound=bnd, label=f"full-stack {scenario}",
+                             max_execs=(4000 if ctx.quick else 30000) if not lost else 3000)
         fe += st["executions"]
         states.update(st["obs"])
         explore.fold_stats(ctx, st, prefix="fullstack_")
